@@ -25,6 +25,10 @@ def projects(tier, seed):
     hl = fault.small_project(rnd, nfiles=2, stmts=(2, 4), label="hardlink")
     hl.hardlinks = {"src/f0.rs": "shared/f0_other_name.rs"}
     ps.append(hl)
+    # ambient state that must not matter (and must survive): editor droppings / scratch-like names beside the sources,
+    # write-protected sources, a stale lock scratch copy
+    ps.append(fault.small_project(rnd, nfiles=2, stmts=(1, 3), label="sib", ambient_kind="siblings"))
+    ps.append(fault.small_project(rnd, nfiles=2, stmts=(1, 2), structured=True, label="ro", ambient_kind="ro_sources"))
     if tier == "thorough":
         ps.append(fault.small_project(rnd, nfiles=1, stmts=(1, 2), big=1200000, label="b1m"))
         for j in range(24):
@@ -56,6 +60,10 @@ def plan_for(ops, tier, rnd):
             inj.append((k, e, "n=%d,act=errno:%d" % (k, fault.ERRNO[e])))
         if o["kind"] == "write" and o["bytes"] > 1:
             inj.append((k, "short", "n=%d,act=short" % k))
+            # a partial failure: the write stores a prefix, the write of the remainder fails (what ENOSPC / EDQUOT / RLIMIT_FSIZE
+            # do when the limit falls inside a buffer), later operations succeed again
+            for e in ("ENOSPC", "EIO", "EINTR"):
+                inj.append((k, "short+" + e, "n=%d,act=short;n=%d,act=errno:%d" % (k, k + 1, fault.ERRNO[e])))
     return inj, exhaustive, K
 
 
@@ -83,7 +91,10 @@ def work(job):
     if xdev:
         phase = "xdev:" + phase
         res["counters"]["cross_device_tmpdir_injections"] = 1
-    if ";" in (rules or ""):
+    if action.startswith("short+"):
+        res["counters"]["partial_failure_injections"] = 1
+        fired = fired if len(fired) >= 2 else []
+    elif ";" in (rules or ""):
         phase = "after-fault:" + phase
         res["counters"]["second_order_injections"] = 1
         fired = [o for o in fired if o["fired"].startswith("kill")] if any(o["fired"].startswith("kill") for o in fired) else []
@@ -91,7 +102,7 @@ def work(job):
         res["inconclusive"]["timeout"] = 1
         return res
     if not fired:
-        if action == "short":
+        if action == "short" or action.startswith("short+"):
             res["counters"]["short-write-not-applicable"] = 1
             return res
         res["inconclusive"]["injection did not fire"] = 1
@@ -106,7 +117,7 @@ def work(job):
     # online trace rule: nothing is written through a name that is already a source file
     through = [o for o in (rec.shim or []) if fault.phase_of(o) in TRACE_RULE_PHASES]
     torn = {rel: s for rel, s in states.items() if s.startswith("torn")}
-    act_class = action if action in ("kill-before", "kill-after", "short") else ("persistent-errno" if action.startswith("persistent") else ("errno+kill" if "+kill" in action else "errno"))
+    act_class = action if action in ("kill-before", "kill-after", "short") else "short+errno" if action.startswith("short+") else ("persistent-errno" if action.startswith("persistent") else ("errno+kill" if "+kill" in action else "errno"))
     for rel, s in sorted(torn.items()):
         res["violations"].append({"signature": "C07.%s|%s|%s" % (s, act_class, phase),
                                   "detail": {"file": rel, "state": s, "k": k, "action": action, "phase": phase, "end": rec.ended(),
@@ -125,6 +136,55 @@ def work(job):
         res["samples"].append({"project": proj.label, "injection": rules, "phase": phase, "ended": rec.ended(), "fired": fired[:1],
                                "post_states": states})
     return res
+
+
+def history_work(job):
+    """Two runs over one tree and one TMPDIR: run 1 is killed at operation k (its scratch file stays behind), the developer then
+    rewrites the sources - shorter than before, each still lacking a reference - and run 2 is an ordinary fault-free run.
+    Every source must afterwards be its new original or the complete update of it."""
+    built, pi, proj, k, how = job
+    res = {"evaluations": 2, "nontrivial": [], "violations": [], "samples": [], "inconclusive": {}, "counters": {}}
+    rnd = core.rng_for("c07hist", pi, k, how)
+    with core.Box(tag="c07h") as box:
+        cfg = proj.materialise(box)
+        r1 = core.run_breadlog(built, box, cfg, rules="n=%d,act=%s" % (k, how), timeout=120)
+        fired = [o for o in (r1.shim or []) if o["fired"]]
+        left = fault.tmp_leftovers(box)
+        newfiles = {}
+        for rel in proj.files:
+            cur = box.read(rel).split(b"\n")
+            keep = [l for l in cur if b"!(" in l and rnd.random() < 0.5][:2]
+            newfiles[rel] = b"\n".join([b"// rewritten"] + keep + [b'    warn!("H%d rewritten and shorter");' % pi, b""])
+            os.chmod(os.path.join(box.proj, rel), 0o644)
+            box.write(rel, newfiles[rel])
+        proj2 = fault.Project(newfiles, structured=proj.structured, use_cache=proj.use_cache, extra=proj.extra, label=proj.label + "-h")
+        r2 = core.run_breadlog(built, box, cfg, timeout=120)
+        states, ids = fault.post_state(proj2, box, {})
+        other = fault.others_changed(proj2, box)
+    if r1.timed_out or r2.timed_out:
+        res["inconclusive"]["timeout"] = 1
+        return res
+    if not fired:
+        res["inconclusive"]["injection did not fire"] = 1
+        return res
+    res["nontrivial"].append("history|%s|%s|%s|leftover=%s" % (proj.label, k, how, bool(left)))
+    res["counters"]["two_run_histories"] = 1
+    res["counters"]["two_run_histories_with_scratch_left_by_run_1"] = int(bool(left))
+    torn = {rel: st for rel, st in states.items() if st.startswith("torn")}
+    for rel, st in sorted(torn.items()):
+        res["violations"].append({"signature": "C07.%s|second-run-after-%s" % (st, how),
+                                  "detail": {"file": rel, "state": st, "k": k, "scratch_left_by_run_1": left[:3], "run2_exit": r2.ended(),
+                                             "now": box_tail(newfiles[rel]), "run1_fired": fired[:1]},
+                                  "case": {"history": [pi, k, how]}})
+        break
+    if other:
+        res["violations"].append({"signature": "C07.other-project-file-changed|second-run-after-%s" % how, "detail": {"files": other},
+                                  "case": {"history": [pi, k, how]}})
+    return res
+
+
+def box_tail(b):
+    return b[-200:]
 
 
 def main(tier):
@@ -194,6 +254,17 @@ def main(tier):
                         jobs.append((built, pi, proj, expected, k, "EIO", "n=%d,act=errno:5" % k, fault.phase_of(xops[k - 1]), True))
             else:
                 ktable[proj.label]["K_cross_device"] = "no second filesystem available"
+    hjobs = []
+    for pi, proj in enumerate(ps):
+        ops, _, rec, _, _ = fault.clean_reference(built, proj)
+        if rec.rc != 0:
+            continue
+        cand = [o["n"] for o in ops if fault.phase_of(o) in ("tmp-write", "tmp-close", "tmp-fsync", "rename", "tmp-create")]
+        for k in (cand if len(cand) <= 12 else rnd.sample(cand, 12 if tier == "quick" else 60)):
+            hjobs.append((built, pi, proj, k, "kill-before"))
+            hjobs.append((built, pi, proj, k, "kill-after"))
+    for res in frame.pmap(history_work, hjobs, chunksize=4):
+        ck.absorb(res)
     audit = blind_spot_audit(built, ps[0])
     ck.extra["blind_spot_audit"] = audit
     if audit.get("missed"):
@@ -258,6 +329,9 @@ def replay_witness(w, ck=None, built=None):
     seed = w.get("seed", 0)
     tier = w.get("tier", "quick")
     ps = projects(tier, seed)
+    if "history" in c:
+        pi, k, how = c["history"]
+        return bool(history_work((built, pi, ps[pi], k, how))["violations"])
     proj = ps[c["project"]]
     ops, after, rec, expected, lock = fault.clean_reference(built, proj)
     if not c.get("rules"):
